@@ -40,7 +40,45 @@ import (
 func init() {
 	reg.Register(&reg.Spec{ID: "C26",
 		Imports: "From Coq Require Import Floats.SpecFloat.\nFrom verif Require Import lib.Base model.C24_F64 model.C24_StoreSpec model.C26.",
-		Judge:   "C26.judge", Shard: 4, Run: run})
+		Judge:   "C26.judge", Shard: 2, Run: run})
+}
+
+
+// interner: byte strings of a case are bound once with let (string literals are
+// by far the slowest thing for Coq to elaborate) and referenced by name.
+type interner struct {
+	names map[string]string
+	order []string
+}
+
+var cur = &interner{names: map[string]string{}}
+
+func resetIntern() { cur = &interner{names: map[string]string{}} }
+
+// S is the interned counterpart of coqfmt.Str.
+func S(s string) string {
+	if s == "" {
+		return Str(s)
+	}
+	if n, ok := cur.names[s]; ok {
+		return n
+	}
+	n := fmt.Sprintf("w%d", len(cur.order))
+	cur.names[s] = n
+	cur.order = append(cur.order, s)
+	return n
+}
+
+// wrap puts the let bindings of the interned strings around a term.
+func wrap(term string) string {
+	var sb strings.Builder
+	sb.WriteString("(")
+	for i, s := range cur.order {
+		fmt.Fprintf(&sb, "let w%d := %s in ", i, Str(s))
+	}
+	sb.WriteString(term)
+	sb.WriteString(")")
+	return sb.String()
 }
 
 // ---------------------------------------------------------------- operations
@@ -85,7 +123,7 @@ func F64(x float64) string {
 func (o op) coq() string {
 	switch o.K {
 	case "add":
-		return App("OAddCmd", Str(o.Text))
+		return App("OAddCmd", S(o.Text))
 	case "del":
 		return App("ODelCmd", Z(int64(o.A)))
 	case "get":
@@ -93,19 +131,19 @@ func (o op) coq() string {
 	case "list":
 		return App("OCmds", Z(int64(o.A)), Z(int64(o.B)))
 	case "next":
-		return App("ONextCmd", Z(int64(o.A)), Str(o.Text))
+		return App("ONextCmd", Z(int64(o.A)), S(o.Text))
 	case "prev":
-		return App("OPrevCmd", Z(int64(o.A)), Str(o.Text))
+		return App("OPrevCmd", Z(int64(o.A)), S(o.Text))
 	case "seq":
 		return "ONextCmdSeq"
 	case "adddir":
-		return App("OAddDir", Str(o.Text), F64(o.Factor))
+		return App("OAddDir", S(o.Text), F64(o.Factor))
 	case "deldir":
-		return App("ODelDir", Str(o.Text))
+		return App("ODelDir", S(o.Text))
 	case "dirs":
 		l := make([]string, len(o.BL))
 		for i, d := range o.BL {
-			l[i] = Str(d)
+			l[i] = S(d)
 		}
 		return App("ODirs", List(l))
 	}
@@ -143,19 +181,19 @@ func (r result) coq() string {
 	case "ok":
 		return "ROk"
 	case "text":
-		return App("RText", Str(r.Text))
+		return App("RText", S(r.Text))
 	case "cmd":
-		return App("RCmd", Str(r.Text), Z(int64(r.Z)))
+		return App("RCmd", S(r.Text), Z(int64(r.Z)))
 	case "cmds":
 		l := make([]string, len(r.Cmds))
 		for i, x := range r.Cmds {
-			l[i] = Pair(Str(x.Text), Z(int64(x.Seq)))
+			l[i] = Pair(S(x.Text), Z(int64(x.Seq)))
 		}
 		return App("RCmds", List(l))
 	case "dirs":
 		l := make([]string, len(r.Dirs))
 		for i, x := range r.Dirs {
-			l[i] = Pair(Str(x.Path), F64(x.Score))
+			l[i] = Pair(S(x.Path), F64(x.Score))
 		}
 		return App("RDirs", List(l))
 	case "nomatch":
@@ -677,6 +715,7 @@ func oneRun(c *reg.Ctx, nSep, nShared, perClient, procs int) {
 	}
 	sort.SliceStable(calls, func(i, j int) bool { return calls[i].Inv < calls[j].Inv })
 	order, best, exhausted := linearize(calls, 2_000_000)
+	resetIntern()
 	items := make([]string, len(calls))
 	for i, k := range calls {
 		items[i] = App("mkCall", N(uint64(k.Client)), k.Op.coq(), N(uint64(k.Inv)),
@@ -707,7 +746,7 @@ func oneRun(c *reg.Ctx, nSep, nShared, perClient, procs int) {
 		sb.WriteString(s)
 	}
 	sum := sha1.Sum([]byte(sb.String()))
-	rc.Coq = App("mkCase", List(items), List(ord))
+	rc.Coq = wrap(App("mkCase", List(items), List(ord)))
 	rc.Desc = d
 	rc.Key = fmt.Sprintf("%x", sum[:8])
 	rc.Nontrivial = d.Overlaps >= len(calls)/2 && len(calls) >= 20
